@@ -31,6 +31,20 @@ OVERLAYS = [
     ("src/drg/chacha.rs", "verif_drg", "drg.rs", None, "crate::drg::chacha"),
 ]
 
+# plug-in registrations: runner/reg/*.py may define OVERLAYS (same tuple format) — one file per harness family
+import glob as _glob, importlib.util as _ilu
+def _load_reg():
+    mods = []
+    for f in sorted(_glob.glob(os.path.join(VERIF, "runner", "reg", "*.py"))):
+        spec = _ilu.spec_from_file_location("reg_" + os.path.basename(f)[:-3], f)
+        m = _ilu.module_from_spec(spec)
+        spec.loader.exec_module(m)
+        mods.append(m)
+    return mods
+REG = _load_reg()
+for _m in REG:
+    OVERLAYS += list(getattr(_m, "OVERLAYS", []))
+
 # harness modules that sit below a private module are re-exported from the nearest crate-visible ancestor so that the
 # native replay dispatcher (crate::verif_glue) can name them: real module path -> (file to append to, use-path, alias, cfg)
 EXPORTS = {
